@@ -2,6 +2,7 @@
 import ast
 
 from ..core import astutil as A
+from ..core import match as M
 from ..core.cfg import cfg_of
 from ..core.model import ClassInfo, dotted
 
@@ -30,10 +31,10 @@ def run(ctx):
     ctx.require("vdb_filter" in mutable_state, "plan_state.__init__: vdb_filter not initialised to a mutable container")
     n_sites = 0
     for mod in ("pkgcore.resolver.plan", "pkgcore.resolver.state", "pkgcore.resolver.choice_point", "pkgcore.ebuild.resolver"):
-        M = P.module(mod)
-        for f in M.funcs.values():
+        mi = P.module(mod)
+        for f in mi.funcs.values():
             for c in A.calls(f.node):
-                tgt = P.resolve_name(M, dotted(c.func) or "")
+                tgt = P.resolve_name(mi, dotted(c.func) or "")
                 if isinstance(tgt, ClassInfo) and any(x is rbase for x in P.mro(tgt)):
                     unhashable = [A.unparse(a) for a in c.args if any(A.unparse(a).endswith("." + m) for m in mutable_state) or isinstance(a, (ast.Set, ast.List, ast.Dict, ast.ListComp, ast.SetComp))]
                     if not unhashable:
@@ -75,7 +76,6 @@ def run(ctx):
     red = K.methods["reduce_atoms"]
     stt = K.methods["state"]
     cur = [t.id for t, v, _ in A.assignments(ri.node) if isinstance(t, ast.Name) and A.unparse(v) == "self.matches_cur"]
-    curv = cur[0] if cur else "cur"
     filled = {A.self_attr(t): A.unparse(v) for t, v, _ in A.assignments(ri.node) if A.self_attr(t)}
     inited = {A.self_attr(t) for t, v, _ in A.assignments(init_cp.node) if A.self_attr(t)}
     red_tuple = set()
@@ -88,7 +88,7 @@ def run(ctx):
         prop = K.methods.get(dep)
         rets = A.returns(prop.node) if prop is not None else []
         ctx.check("R2", K, bool(rets) and A.unparse(rets[-1].value) == f"self.{slot}", f"property:{dep}", f"choice_point.{dep} returns self.{slot}")
-        ctx.check("R2", ri, filled.get(slot) == f"{curv}.{dep}.cnf_solutions()", f"source:{dep}", f"{slot} is filled from the package's own {dep}",
+        ctx.check("R2", ri, filled.get(slot) in ([f"{c}.{dep}.cnf_solutions()" for c in cur] + [f"self.matches_cur.{dep}.cnf_solutions()"]), f"source:{dep}", f"{slot} is filled from the package's own {dep}",
                   f"choice_point._reset_iters fills {slot} from `{filled.get(slot)}`: {dep.upper()} of the chosen package is never resolved (another class's dependencies are resolved in its place)")
         ctx.check("R2", init_cp, slot in inited, f"initialised:{dep}", f"{slot} is initialised in __init__")
         ctx.check("R2", red, slot in red_tuple, f"reduced:{dep}", f"{slot} takes part in reduce_atoms", f"choice_point.reduce_atoms filters {sorted(map(str, red_tuple))}; {slot} is left out, so insoluble {dep.upper()} alternatives are never pruned")
@@ -119,7 +119,9 @@ def run(ctx):
         if not ctx.check("R3", ra, bool(nodes), f"processed:{dep}", f"{dep.upper()} is processed by _rec_add_atom", f"_rec_add_atom never processes {dep.upper()}"):
             continue
         guard = [p for p in A.parents(nodes[0].ast) if isinstance(p, ast.If)]
-        ok = bool(guard) and A.unparse(guard[0].test) == "not choices.current_pkg.built or self.process_built_depends"
+        # the package whose build dependencies are skipped is the one the call processes: its `choices` argument (a local here)
+        call = next((c for c in A.calls(nodes[0].ast) if A.unparse(c.func) == "self.process_dependencies_and_blocks"), None)
+        ok = bool(guard) and call is not None and M.pat("not $$c.current_pkg.built or self.process_built_depends").matches(guard[0].test, {"$c": call.args[1]}) is not None
         ctx.check("R3", ra, ok, f"build-deps-guard:{dep}", f"{dep.upper()} is skipped only for built packages when built depends are not processed", node=nodes[0].ast)
     pd = pdb_nodes("pdepend")
     if not ctx.check("R3", ra, bool(pd), "processed:pdepend", "PDEPEND is processed by _rec_add_atom", "_rec_add_atom never processes PDEPEND"):
@@ -134,7 +136,11 @@ def run(ctx):
     # ---- R4 failure paths roll back ---------------------------------------------------------------
     pdab = P.func(PL, "merge_plan.process_dependencies_and_blocks")
     bts = [c for c in A.calls(pdab.node) if A.unparse(c.func) == "self.state.backtrack"]
-    fail_if = [n for n in A.body_walk(pdab.node) if isinstance(n, ast.If) and A.unparse(n.test) == "len(l) == 1"]
+    # the failure branch: the result of process_dependencies (whatever the local is called) has length 1
+    fail_if = []
+    res = M.one(pdab.node, "$l = self.process_dependencies(...)")
+    if res is not None:
+        fail_if = [n for n in A.body_walk(pdab.node) if isinstance(n, ast.If) and M.pat("len($l) == 1").matches(n.test, res.env) and n.lineno > res.node.lineno]
     ok = len(bts) == 1 and bool(fail_if) and any(A.contains_node(s, bts[0]) for s in fail_if[0].body) and A.unparse(bts[0].args[0]) == "stack.current_frame.start_point"
     ctx.check("R4", pdab, ok, "dependency-failure-target", "a failed dependency class rolls the plan back to the FRAME's start point (everything this candidate added, not just this class)",
               f"process_dependencies_and_blocks backtracks to `{A.unparse(bts[0].args[0]) if bts else None}`: dependencies resolved for earlier classes of the rejected candidate stay in the plan when the next candidate is tried", node=bts[0] if bts else pdab.node)
@@ -143,14 +149,14 @@ def run(ctx):
     pdab_nodes = {g.node_of(c) for c in A.calls(ra.node) if A.unparse(c.func) == "self.process_dependencies_and_blocks"}
     for c in conts:
         # each `continue` in the choice loop follows either a failing process_dependencies_and_blocks (which backtracked) or an explicit backtrack
-        preds = set()
         st = c.ast
         par = getattr(st, "_parent", None)
         ok = False
-        if isinstance(par, ast.If) and A.unparse(par.test) == "failures":
-            ok = True
-        elif isinstance(par, ast.If):
-            ok = any(A.unparse(s).startswith("self.state.backtrack(stack.current_frame.start_point)") for s in par.body)
+        if isinstance(par, ast.If):
+            # `if <failures>: continue` where <failures> is (whatever it is called) the failure result of the
+            # process_dependencies_and_blocks call that was made last before the test, or an explicit rollback in the branch
+            ok = (isinstance(par.test, ast.Name) and _last_binding_is_pdab(par, par.test.id)) or \
+                 (st in par.body and M.has(par.body, "self.state.backtrack(stack.current_frame.start_point)\ncontinue"))
         ctx.check("R4", ra, ok, f"continue-after-rollback@{par.lineno - ra.node.lineno if par is not None else 0}", "the next candidate is tried only after the plan state was rolled back to the frame start", node=st)
     endbt = [c for c in A.calls(ra.node) if A.unparse(c.func) == "self.state.backtrack" and not any(isinstance(p, ast.While) for p in A.parents(c))]
     ctx.check("R4", ra, len(endbt) == 1 and A.unparse(endbt[0].args[0]) == "stack.current_frame.start_point", "exhausted-rolls-back", "running out of candidates rolls back to the frame start before reporting failure")
@@ -175,17 +181,35 @@ def run(ctx):
     ok = ok or (bool(tests) and A.unparse(tests[0].test) == f"not self.state.match_atom({r0})")
     ctx.check("R5", ell, ok, "vdb-load-condition", "installed packages are loaded unless something MATCHING the restriction (slot included) is already tracked",
               f"_ensure_livefs_is_loaded skips loading on `{A.unparse(tests[0].test) if tests else None}`: with another slot of the same package already planned, the installed package in this slot is not loaded, so the new version is added next to it (two packages in one slot) or a blocker on it goes unnoticed", node=tests[0] if tests else ell.node)
-    ctx.check("R5", ell, "force=True" in A.unparse(ell.node) and "self.livefs_dbs.itermatch" in A.unparse(ell.node), "vdb-load-forced", "installed packages are inserted (forced) from the installed-package repositories")
+    ctx.check("R5", ell, M.has(ell.node, f"for $p in self.livefs_dbs.itermatch({r0}):\n    state.add_op(..., force=True).apply(self.state)"), "vdb-load-forced", "installed packages are inserted (forced) from the installed-package repositories")
     ic = P.func(PL, "merge_plan.insert_choice")
-    ctx.check("R5", ic, "self._ensure_livefs_is_loaded(choices.current_pkg.slotted_atom)" in A.unparse(ic.node), "vdb-loaded-before-insert", "before inserting a non-installed package the installed occupant of its slot is loaded")
+    cp = ic.params()[2]
+    loaded = M.find(ic.node, f"self._ensure_livefs_is_loaded({cp}.current_pkg.slotted_atom)")
+    adds = [c for c in A.calls(ic.node) if A.unparse(c.func) == "state.add_op"]
+    ctx.check("R5", ic, bool(loaded) and bool(adds) and loaded[0].node.lineno < min(c.lineno for c in adds), "vdb-loaded-before-insert", "before inserting a non-installed package the installed occupant of its slot is loaded")
     fs = P.func("pkgcore.resolver.pigeonholes", "PigeonHoledSlots.fill_slotting")
-    t = A.unparse(fs.node)
-    ctx.check("R5", fs, "self.check_limiters(obj)" in t and "x.slot == dslot" in t and "self.slot_dict.get(key, ())" in t and "if not l or force" in t, "slot-conflict-definition", "a conflict is a matching limiter or an occupant of the same key and slot; insertion happens only without conflicts (or forced)")
+    conflict_def = ("$l = self.check_limiters(obj)\n$key = obj.key\n$dslot = obj.slot\n"
+                    "$l.extend(($x for $x in self.slot_dict.get($key, ()) if $x.slot == $dslot))\n"
+                    "if not $l or force:\n    self.slot_dict.setdefault($key, []).append(obj)\nreturn $l")
+    ctx.check("R5", fs, M.has(fs.node, conflict_def), "slot-conflict-definition", "a conflict is a matching limiter or an occupant of the same key and slot; insertion happens only without conflicts (or forced)")
     inc = P.func(ST, "incref_forward_block_op.apply")
     ra_ = [c for c in A.calls(inc.node) if A.unparse(c.func).endswith(".blockers_refcnt.add")]
     ctx.check("R5", inc, len(ra_) == 1 and not any(isinstance(p, ast.If) for p in A.parents(ra_[0])), "blocker-refcount-unconditional", "every registration of a blocker takes a reference (also when the limiter already exists)",
               "incref_forward_block_op.apply only counts the first registration of a blocker: when a second package with the same blocker is backed out the limiter is removed although the first still needs it", node=ra_[0] if ra_ else inc.node)
     ctx.floor("R5", 8)
+
+
+def _last_binding_is_pdab(if_stmt, name):
+    """the statement that last bound `name` before `if_stmt` (same block) is `_, name = self.process_dependencies_and_blocks(...)`"""
+    holder = getattr(if_stmt, "_parent", None)
+    for fld in ("body", "orelse", "finalbody"):
+        body = getattr(holder, fld, None)
+        if isinstance(body, list) and any(s is if_stmt for s in body):
+            before = body[:[s is if_stmt for s in body].index(True)]
+            for s in reversed(before):
+                if any(isinstance(n, ast.Name) and isinstance(n.ctx, ast.Store) and n.id == name for n in ast.walk(s)):
+                    return M.pat("$_, $f = self.process_dependencies_and_blocks(...)").matches(s, {"f": name}) is not None
+    return False
 
 
 MUTANTS = [
